@@ -441,7 +441,7 @@ impl Property for C13 {
         1400
     }
     fn quick_cases(&self) -> u64 {
-        240_000
+        1_440_000
     }
     fn states_termination(&self) -> bool {
         true
